@@ -263,6 +263,14 @@ func (idx *HNSWIndex) Add(vector VectorNode) error {
 		idx.nextID++
 	}
 
+	// Re-adding a removed ID is an update: purge the soft-deleted vertices
+	// first, otherwise the new vertex would overwrite the old one in idx.nodes
+	// while the ID stays marked as deleted (invisible, and destroyed by the
+	// next Flush).
+	if idx.deletedNodes.Contains(id) {
+		idx.flushLocked()
+	}
+
 	// Update max level
 	if level > idx.maxLevel {
 		idx.maxLevel = level
@@ -353,6 +361,11 @@ func (idx *HNSWIndex) Flush() error {
 	idx.mu.Lock()
 	defer idx.mu.Unlock()
 
+	return idx.flushLocked()
+}
+
+// flushLocked is Flush for callers that already hold the write lock.
+func (idx *HNSWIndex) flushLocked() error {
 	// Quick exit if nothing to flush
 	deletedCount := int(idx.deletedNodes.GetCardinality())
 	if deletedCount == 0 {
